@@ -60,9 +60,10 @@ func suiteC19(cfg Config, res *Result) {
 		ct.Names = append(ct.Names, k)
 		ct.Vals = append(ct.Vals, ctxVals[k])
 	}
+	shadow := map[string]bool{} // names that are nothing in the position at hand (parameters the caller left out)
 	evalParam := func(p string) *pongo2.Value {
 		switch {
-		case p == "":
+		case p == "" || shadow[p]:
 			return pongo2.AsValue(nil)
 		case p[0] == '"':
 			// a string literal as the lexer reads it: one left-to-right pass, \\ is a backslash, \" a quote
@@ -92,6 +93,9 @@ func suiteC19(cfg Config, res *Result) {
 		"{% autoescape off %}{% macro m(s, n, a=V) %}{{ a }}{% endmacro %}{{ m(\"OTHER\", 99) }}{% endautoescape %}",
 		"{% autoescape off %}{% macro m(t, l, i, a=V) %}{{ a }}{% endmacro %}{% with z=1 %}{{ m(\"OTHER\", nl, 7) }}{% endwith %}{% endautoescape %}",
 		"{% autoescape off %}{% firstof V \"\" %}{% endautoescape %}",
+		// a parameter the caller leaves out is nothing inside the body, whatever the context holds under its name
+		"NIL:s,n:{% autoescape off %}{% macro m(s, n) %}{{ V }}{% endmacro %}{{ m() }}{% endautoescape %}",
+		"NIL:t,l,i:{% autoescape off %}{% macro m(q, t, l, i) %}{% with w=V %}{{ w }}{% endwith %}{% endmacro %}{{ m(1) }}{% endautoescape %}",
 		// an item of a list literal is a filtered term like any other
 		"{% autoescape off %}{% for q in [V] %}{{ q }}{% endfor %}{% endautoescape %}",
 		"{% autoescape off %}{% for q in [\"k\"|upper, V] %}{% if forloop.Last %}{{ q }}{% endif %}{% endfor %}{% endautoescape %}",
@@ -110,6 +114,17 @@ func suiteC19(cfg Config, res *Result) {
 				p = rng.Pick(ps) // a third of the time the parameter is left out: every filter tolerates that
 			}
 			steps = append(steps, chainStep{f, p})
+		}
+		pos := positions[rng.Intn(len(positions))]
+		for k := range shadow {
+			delete(shadow, k)
+		}
+		if strings.HasPrefix(pos, "NIL:") {
+			parts := strings.SplitN(pos[4:], ":", 2)
+			for _, nm := range strings.Split(parts[0], ",") {
+				shadow[nm] = true
+			}
+			pos = parts[1]
 		}
 		base := rng.Pick([]string{"s", "t", "i", "f", "l", "li", "nl", "h", "bs", `"lit x"`, `"a\\nb\\\\tc"`, "42"})
 		// a leading minus belongs to the whole filtered term: -5|add:2 is -(5|add:2)
@@ -145,13 +160,15 @@ func suiteC19(cfg Config, res *Result) {
 		if neg {
 			src = "-" + src
 		}
-		pos := positions[rng.Intn(len(positions))]
 		for neg && strings.Contains(pos, " in [") {
 			// an item of a list literal is a filtered term; a signed one is an operator expression,
 			// which the engine refuses there at execution time (not this property's subject)
 			pos = positions[rng.Intn(len(positions))]
+			for strings.HasPrefix(pos, "NIL:") {
+				pos = positions[rng.Intn(len(positions))]
+			}
 		}
-		if rng.Chance(1, 6) && k > 0 && !neg {
+		if rng.Chance(1, 6) && !neg && len(shadow) == 0 { // (k = 0: the empty chain is the identity on the body)
 			// the filter tag: the chain applied to the rendered body
 			full := "{% autoescape off %}{% filter " + strings.TrimPrefix(chainSrc(steps), "|") + " %}{{ " + base + " }}{% endfilter %}{% endautoescape %}"
 			var v2 *pongo2.Value
